@@ -12,6 +12,15 @@ def gen(rng, tier):
         G, fam = common.random_connected_graph(rng, 1, 6 if tier == "quick" else 7, large_ok=True)
         n = G["n"]; q = rng.randrange(n); D = common.random_divisor(rng, G)
         if rng.random() < 0.15: G, D = common.thin_cut_game(rng); n = G["n"]; q = rng.randrange(n); fam = "thincut"
+        if rng.random() < 0.2 and n >= 3 and G["edges"]:
+            # a little debt off q next to rich vertices holding about (valence + total debt) chips, on thick edges: concentration takes more from a rich
+            # vertex than the debt it repairs, and the vertex then sits right at the burning threshold
+            e = [[a, b, rng.choice([1, 2, 3])] for a, b, _ in G["edges"]]; G = common.mk_graph_like(G, e); M = common.matrix(G)
+            others = [x for x in range(n) if x != q]; debtors = rng.sample(others, rng.randint(1, min(2, len(others) - 1))); D = [0] * n; tot = 0
+            for v in debtors: D[v] = -rng.randint(1, 2); tot -= D[v]
+            for v in others:
+                if v not in debtors: D[v] = rng.choice([0, sum(M[v]) + tot + rng.choice([-1, 0, 0, 1])])
+            D[q] = rng.randint(-2, 4)
         if rng.random() < 0.15 and n >= 2 and G["edges"]:      # a debt far deeper than the valence of the vertex that owes it (many borrowing moves at one vertex)
             M = common.matrix(G); v = rng.choice([x for x in range(n) if x != q]); D = list(D); D[v] = -(10 * sum(M[v]) + rng.randint(1, 3 * sum(M[v]) + 5))
         if rng.random() < 0.08 and G["edges"]: G, D = common.scale_game(rng, G, D); fam = fam + "*2^k"
